@@ -34,7 +34,7 @@ func (c15) Assumptions() []string {
 	return []string{"self-differential: a fresh ValueReader running the same code is the reference", "documents and pool schedules are sampled"}
 }
 func (c15) Required(tier string) []string {
-	return []string{"P-miss", "P-pick", "P-evict", "X-mutate-result", "A-abort", "pool-hit-with-stale-size-hint", "pool-hit-with-used-scratch", "pool-hit-with-retained-slice", "read-after-failed-read", "read-after-depth-limit-exit", "read-after-10x-larger-document", "snapshots-rechecked", "input-in-reused-arena", "top-level-string", "next-message-same-address-same-length-other-content"}
+	return []string{"P-miss", "P-pick", "P-evict", "X-mutate-result", "A-abort", "pool-hit-with-stale-size-hint", "pool-hit-with-used-scratch", "pool-hit-with-retained-slice", "read-after-failed-read", "read-after-depth-limit-exit", "read-after-10x-larger-document", "snapshots-rechecked", "input-in-reused-arena", "top-level-string", "next-message-same-address-same-length-other-content", "thousands-of-never-seen-field-names"}
 }
 
 var vrOps = []string{"VR.ReadValue", "VR.ReadObject", "VR.ReadArray"}
@@ -127,6 +127,20 @@ func genVRDoc(r *Rand, entry string) Doc {
 func (c15) Gen(r *Rand, sc *Scenario, tier string) { genVRHistory(r, sc, true) }
 
 func genVRHistory(r *Rand, sc *Scenario, withMutations bool) {
+	if r.Chance(1, 40) {
+		// 2-4 documents with thousands of field names each, none of them seen before: state that a
+		// reader accumulates per distinct key (interning tables, key arenas) overflows and wraps
+		var ops []Op
+		base := 0
+		for i, n := 0, r.Range(2, 4); i < n; i++ {
+			k := []int{3000, 5000, 9000}[r.Intn(3)]
+			sc.Docs = append(sc.Docs, genDistinctKeysDoc(r, base, k))
+			base += k
+			ops = append(ops, Op{Kind: vrOps[r.Pick(4, 1, 1)], Doc: len(sc.Docs) - 1, Tape: genPoolTape(r, 8)})
+		}
+		sc.Tasks = [][]Op{ops}
+		return
+	}
 	nops := []int{1, 2, 3, 4, 6, 10}[r.Intn(6)]
 	faultFree := r.Chance(1, 6)
 	var ops []Op
@@ -298,6 +312,9 @@ func (c15) Exec(sc *Scenario, st *Stats) *Violation {
 			if d.Class == "top-level-string" {
 				st.probe("top-level-string")
 			}
+			if d.Class == "many-distinct-keys" {
+				st.probe("thousands-of-never-seen-field-names")
+			}
 			if lastFailed {
 				st.probe("read-after-failed-read")
 			}
@@ -412,11 +429,13 @@ func (c03) Assumptions() []string {
 	return []string{"reduced scope: what is decided is independence of the result from pool scheduling and reader reuse, plus agreement with the model on sampled documents; exhaustiveness over byte strings is not claimed", "reference parser cross-checked against encoding/json per document"}
 }
 func (c03) Required(tier string) []string {
-	return []string{"P-miss", "P-pick", "P-evict", "duplicate-key", "escaped-key", "empty-container", "typed-entry-rejects-null", "typed-entry-rejects-other-root", "number-out-of-range-rejected", "depth-10000-accepted", "depth-10001-rejected", "invalid-utf8-kept", "model-vs-encoding-json-tree-checked", "input-in-reused-arena", "next-message-same-address-same-length-other-content"}
+	return []string{"P-miss", "P-pick", "P-evict", "duplicate-key", "escaped-key", "empty-container", "typed-entry-rejects-null", "typed-entry-rejects-other-root", "number-out-of-range-rejected", "depth-10000-accepted", "depth-10001-rejected", "invalid-utf8-kept", "model-vs-encoding-json-tree-checked", "input-in-reused-arena", "next-message-same-address-same-length-other-content", "X-mutate-result"}
 }
 
 func (c03) Gen(r *Rand, sc *Scenario, tier string) {
-	genVRHistory(r, sc, false)
+	// with caller mutations of earlier results: what the caller does to a tree it was given must not
+	// show up in what later calls return
+	genVRHistory(r, sc, r.Chance(1, 2))
 	// free-function entry points too, and exact depth-limit boundaries
 	for i := range sc.Tasks[0] {
 		op := &sc.Tasks[0][i]
@@ -540,6 +559,7 @@ func (c03) Exec(sc *Scenario, st *Stats) *Violation {
 		}
 	}
 	arena := make([]byte, maxLen) // a read buffer the caller reuses: same address for every call that asks for it
+	var c03results []interface{}  // trees returned so far, owned (and sometimes modified) by the caller
 	for oi, op := range sc.Tasks[0] {
 		if op.Kind == "evict-pool" {
 			pool.evictAll()
@@ -548,6 +568,15 @@ func (c03) Exec(sc *Scenario, st *Stats) *Violation {
 			continue
 		}
 		if op.Kind == "mutate-result" {
+			if len(c03results) > 0 {
+				i := op.A % len(c03results)
+				c03results[i] = mutateTree(c03results[i], op.B, op.C)
+				// and every empty object anywhere in it gets a member: an empty container is what a
+				// decoder is most tempted to share between results
+				fillEmptyObjects(c03results[i])
+				st.fault("X-mutate-result")
+				st.evi("mutate", op.B)
+			}
 			continue
 		}
 		d := sc.Docs[op.Doc]
@@ -634,6 +663,30 @@ func (c03) Exec(sc *Scenario, st *Stats) *Violation {
 		if !eqVal(out.Val, refValue(root)) {
 			return viol("tree", fmt.Sprintf("decoded %s, reference tree is %s", descVal(out.Val), descVal(refValue(root))))
 		}
+		if len(c03results) < 16 {
+			c03results = append(c03results, out.Val)
+		}
 	}
 	return nil
+}
+
+// fillEmptyObjects adds a member to every empty object and an element's worth of garbage to the spare
+// capacity of every empty array of a tree the caller owns.
+func fillEmptyObjects(v interface{}) {
+	switch t := v.(type) {
+	case []interface{}:
+		for i := range t {
+			fillEmptyObjects(t[i])
+		}
+		if len(t) == 0 && cap(t) > 0 {
+			t[:1][0] = "filled-by-caller"
+		}
+	case map[string]interface{}:
+		for _, k := range sortedMapKeys(t) {
+			fillEmptyObjects(t[k])
+		}
+		if len(t) == 0 {
+			t["filled-by-caller"] = true
+		}
+	}
 }
